@@ -903,6 +903,9 @@ def engine():
     # its body may change is havocked); an undeclared boundary call counts as touching all ghost state
     e.ghost_effects = {
         "WS.sendMessage": TX_GHOST,
+        "WormholeApp.got_code": ["w_code"], "WormholeApp.got_key": ["w_key", "key_to_app"],
+        "WormholeApp.got_verifier": ["w_verifier"], "WormholeApp.got_versions": ["w_versions", "versions_via"],
+        "WormholeApp.received": [], "WormholeApp.got_welcome": [], "WormholeApp.closed": ["w_closed"],
         "WormholeApp.*": ["w_code", "w_key", "w_verifier", "w_versions", "w_closed", "versions_via", "key_to_app"],
         "DilatorB.*": ["d_stop_called", "d_stopped_done"],
         "SecretBox.decrypt": ["good_decrypt"], "SecretBox.encrypt": [], "SPAKE2.start": [], "SPAKE2.finish": [],
